@@ -214,9 +214,67 @@ fn varying_loop_bodies() -> Vec<Cmd> {
     out
 }
 
+/// Can the program text be given to `eval` / `.` without changing its meaning? Not if a
+/// `return` sits outside any function of the program (it would end the dot script only) or a
+/// `break`/`continue` outside any loop of the program.
+fn wrappable(c: &Cmd, in_loop: bool, in_func: bool) -> bool {
+    let all = |v: &[&Cmd], l: bool, f: bool| v.iter().all(|x| wrappable(x, l, f));
+    match c {
+        Cmd::Return(_) => in_func,
+        Cmd::Break(_) | Cmd::Continue(_) => in_loop,
+        Cmd::Seq(v) | Cmd::Pipe(v) => v.iter().all(|x| wrappable(x, in_loop, in_func)),
+        Cmd::AndOr(a, r) => wrappable(a, in_loop, in_func) && r.iter().all(|(_, x)| wrappable(x, in_loop, in_func)),
+        Cmd::Not(x) | Cmd::Group(x) | Cmd::Subshell(x) | Cmd::Async(x) | Cmd::Subst(x) => wrappable(x, in_loop, in_func),
+        Cmd::If { cond, then, elifs, els } => {
+            all(&[cond, then], in_loop, in_func) && elifs.iter().all(|(a, b)| all(&[a, b], in_loop, in_func)) && els.as_ref().is_none_or(|e| wrappable(e, in_loop, in_func))
+        }
+        Cmd::Loop { pre, body, .. } => pre.iter().all(|x| wrappable(x, true, in_func)) && wrappable(body, true, in_func),
+        Cmd::For { body, .. } => wrappable(body, true, in_func),
+        Cmd::Case { arms, .. } => arms.iter().all(|(_, b)| b.as_ref().is_none_or(|x| wrappable(x, in_loop, in_func))),
+        Cmd::FuncDef { body, .. } => wrappable(body, false, true),
+        _ => true,
+    }
+}
+
+/// Texts that contain no command at all: whatever runs them reports status 0 (XCU 2.14 eval and
+/// dot: "zero if no command is executed"; 2.9.4.1/2.6.3: a subshell or substitution without commands).
+fn blank_texts(ctx: &Ctx) -> u64 {
+    let mut n = 0;
+    for blank in ["", " ", "\n", "\n\n", "# c", "# c\n", " \n\t\n", "\n# c\n\n"] {
+        let cases: Vec<(&str, String, Vec<&str>)> = vec![
+            ("eval", format!("s 5\neval '{blank}'\np z"), vec!["z:0"]),
+            ("dot", "s 5\n. /tmp/blank\np z".to_string(), vec!["z:0"]),
+            ("eval-in-function", format!("f() {{ s 5; eval '{blank}'; }}\nf\np z"), vec!["z:0"]),
+            ("dot-then-and", "s 5\n. /tmp/blank && p y\np z".to_string(), vec!["y:0", "z:0"]),
+            ("eval-not", format!("s 5\n! eval '{blank}'\np z"), vec!["z:1"]),
+        ];
+        for (kind, script, want) in cases {
+            let mut setup = Setup::script(&script);
+            setup.files.push(("/tmp/blank".into(), blank.as_bytes().to_vec(), 0o644));
+            let r = run_once(&setup, &Default::default());
+            n += 1;
+            let got = r.all_trace();
+            if got != want || r.panic.is_some() {
+                ctx.violation(
+                    &format!("c02:no-command-status-{kind}"),
+                    &format!("a text without commands ({blank:?}) run by {kind}: markers {got:?}, expected {want:?} (status 0 when no command is executed); stderr={:?}", r.stderr),
+                    json!({"script": script, "file:/tmp/blank": blank, "expected": format!("{want:?}")}),
+                );
+            }
+        }
+    }
+    n
+}
+
 pub fn replay(case: &serde_json::Value) -> i32 {
     let script = case["script"].as_str().unwrap();
-    let r = run_once(&Setup::script(script), &Default::default());
+    let mut setup = Setup::script(script);
+    for (k, path) in [("file:/tmp/prog", "/tmp/prog"), ("file:/tmp/blank", "/tmp/blank")] {
+        if let Some(t) = case[k].as_str() {
+            setup.files.push((path.into(), if k.ends_with("prog") { format!("{t}\n").into_bytes() } else { t.as_bytes().to_vec() }, 0o644));
+        }
+    }
+    let r = run_once(&setup, &Default::default());
     println!("script:\n{script}\n--\nend={:?}\ntrace={:?}\nstderr={}\nexpected={}", r.end, r.trace_by_proc(), r.stderr, case["expected"]);
     1
 }
@@ -233,6 +291,7 @@ pub fn run(tier: Tier) -> i32 {
     let skipped = AtomicU64::new(0);
     let nontrivial = AtomicU64::new(0);
     let samples = Samples::new(8);
+    let wrapped = AtomicU64::new(0);
     let unspec: std::sync::Mutex<std::collections::BTreeMap<&'static str, u64>> = Default::default();
     progs.par_iter().for_each(|prog| {
         let exp = match refsh::run(prog) {
@@ -260,17 +319,44 @@ pub fn run(tier: Tier) -> i32 {
             }
             first.get_or_insert(script);
         }
+        // the same program as the operand of `eval` and as a dot script: both run the text in the
+        // current environment, so markers, `$?` values and the final status must be the same
+        if first.is_some() && wrappable(prog, false, false) && (small || tier == Tier::Thorough) {
+            for style in [Style::default(), Style { newline: true, ..Style::default() }] {
+                let text = refsh::print(prog, style);
+                if text.contains('\'') {
+                    continue;
+                }
+                for (kind, script) in [("eval", format!("eval '{text}'")), ("dot", ". /tmp/prog".to_string()), ("eval-in-group", format!("{{ eval '{text}'\n}}"))] {
+                    let mut setup = Setup::script(&script);
+                    setup.files.push(("/tmp/prog".into(), format!("{text}\n").into_bytes(), 0o644));
+                    let r = run_once(&setup, &Default::default());
+                    wrapped.fetch_add(1, Relaxed);
+                    if let Some((key, what)) = judge(&r, &exp) {
+                        ctx.violation(
+                            &format!("c02:{kind}-wrapper-{key}"),
+                            &format!("the program run through {kind} differs from the program itself: {what}"),
+                            json!({"script": script, "file:/tmp/prog": text, "ast": format!("{prog:?}"), "expected": format!("{exp:?}")}),
+                        );
+                        break;
+                    }
+                }
+            }
+        }
         // non-trivial: composite program (not a single leaf) whose evaluation produced at least one marker
         if refsh::size(prog) >= 2 && exp.traces.values().any(|v| !v.is_empty()) {
             nontrivial.fetch_add(1, Relaxed);
         }
         samples.offer(|| json!({"script": first, "expected_traces": format!("{:?}", exp.traces), "status": exp.status}));
     });
+    let blank_cases = blank_texts(&ctx);
     let (cs_cases, cs_nontrivial) = command_search(&ctx);
     let cov = json!({
-        "evaluations": evals.load(Relaxed) + cs_cases,
+        "evaluations": evals.load(Relaxed) + cs_cases + wrapped.load(Relaxed) + blank_cases,
+        "runs_through_eval_and_dot": wrapped.load(Relaxed),
+        "texts_without_commands": blank_cases,
         "distinct_nontrivial": nontrivial.load(Relaxed) + cs_nontrivial,
-        "rule": format!("every AST of at most {n} nodes over {{probe with status 0/1, ;, &&, ||, !, |, {{}}, (), if/else, while/until (tick-guarded), for, case (1-2 arms, first match), function definition+call, break/continue [n], return [n], exit [n]}}, each printed in 16 (size<=3) or 4 orthogonal surface variants (newline vs ;, extra blanks, comment, line continuation) and run through the whole shell; all variants must equal the reference interpreter's markers, $? values and exit status. Non-trivial = composite program that produced at least one marker; distinct by AST. Plus the exhaustive command-search table (builtin kind x function x executable in PATH dir 1/2)."),
+        "rule": format!("every AST of at most {n} nodes over {{probe with status 0/1, ;, &&, ||, !, |, {{}}, (), if/else, while/until (tick-guarded), for, case (1-2 arms, first match), function definition+call, break/continue [n], return [n], exit [n]}}, each printed in 16 (size<=3) or 4 orthogonal surface variants (newline vs ;, extra blanks, comment, line continuation) and run through the whole shell; all variants must equal the reference interpreter's markers, $? values and exit status. Non-trivial = composite program that produced at least one marker; distinct by AST. Every program of <= 3 nodes (thorough: all) is also run as the operand of eval, as a dot script and by eval inside a group (same markers and status); texts without any command (empty, blanks, newlines, comments) given to eval, `.`, a command substitution, a function body group and a trap-free subshell leave $? = 0. Plus the exhaustive command-search table (builtin kind x function x executable in PATH dir 1/2)."),
         "samples": samples.take(),
         "programs": progs.len(),
         "programs_skipped_unspecified": skipped.load(Relaxed),
